@@ -5,6 +5,7 @@
 //	scope gen <n> [<shard>]     n random histories (reset … settle); shard selects an independent stream
 //	scope oracle <n> [<shard>]  n random histories executed with root probes; the property's clauses
 //	                            are evaluated on the implementation alone (see oracle.go)
+//	scope judge                 the same evaluation for one history given on stdin
 package main
 
 import (
@@ -100,6 +101,7 @@ func oracle(w *bufio.Writer, n int, r *hx.Rand) {
 			}
 		}
 		timeouts = h.timeouts
+		counts["kf1"] += h.kf1
 		h.cleanup()
 		if fails >= 25 {
 			n = i + 1
@@ -112,6 +114,48 @@ func oracle(w *bufio.Writer, n int, r *hx.Rand) {
 	}
 	sort.Strings(cs)
 	fmt.Fprintf(w, "oracle cases=%d fails=%d %s\n", n, fails, strings.Join(cs, " "))
+}
+
+// judge runs ONE history (op lines on stdin) with the probe set inserted after the first `new` and
+// evaluates the property's clauses on it: the Spec verdict for a history on which implementation and
+// model disagree.  Prints FAIL lines and `judge fails=<n> kf1=<n>`.
+func judge(w *bufio.Writer) {
+	sc := bufio.NewScanner(os.Stdin)
+	var hist []string
+	probed := false
+	for sc.Scan() {
+		line := sc.Text()
+		if line == "" || strings.HasPrefix(line, "#") || line == "reset" {
+			continue
+		}
+		hist = append(hist, line)
+		if line == "new" && !probed {
+			probed = true
+			for _, e := range evNames {
+				hist = append(hist, "on 0 "+e+" ok")
+			}
+		}
+	}
+	h := newH()
+	h.selfTestWatcher()
+	h.oracle = true
+	for l := 0; l < len(evNames); l++ {
+		h.probe[l] = true
+	}
+	for _, line := range hist {
+		h.Exec(line)
+	}
+	h.Exec("settle")
+	h.oracleFinish()
+	seen := map[string]bool{}
+	for _, f := range h.fails {
+		if !seen[f] {
+			seen[f] = true
+			fmt.Fprintf(w, "FAIL %s\n", f)
+		}
+	}
+	fmt.Fprintf(w, "judge fails=%d kf1=%d\n", len(seen), h.kf1)
+	h.cleanup()
 }
 
 func main() {
@@ -135,6 +179,8 @@ func main() {
 	case "oracle":
 		n, _ := strconv.Atoi(os.Args[2])
 		oracle(w, n, shardRand(os.Args[3:], 0x5eed))
+	case "judge":
+		judge(w)
 	default:
 		fmt.Fprintln(os.Stderr, "unknown mode")
 		os.Exit(2)
